@@ -123,6 +123,16 @@ theorem stack_silent (g : Cfg) : lintStack g = [] ↔ ∀ cn ∈ g.nodes.toList,
   rw [stackGo_nil_iff]
   simp
 
+theorem firstLabel_none_iff (ls : List (W String)) : firstLabel ls = none ↔ ls = [] := by
+  constructor
+  · intro h
+    cases ls with
+    | nil => rfl
+    | cons a t =>
+      obtain ⟨m, hm, _⟩ := firstLabel_spec (a :: t) (by simp)
+      rw [h] at hm; simp at hm
+  · intro h; subst h; rfl
+
 /-- **C04 (`overlapping_silent`).** -/
 theorem overlapping_silent (g : Cfg) :
     lintOverlapping g = [] ↔ ∀ i, i < g.nodes.size →
@@ -133,15 +143,16 @@ theorem overlapping_silent (g : Cfg) :
   · intro h i hi h1 h2
     have := h i (by simp [hi])
     simp only [h1, h2, decide_true, Bool.and_self, if_true] at this
-    cases hl : (g.get i).labels with
-    | nil => rfl
-    | cons a b => rw [hl] at this; simp at this
+    cases hl : firstLabel (g.get i).labels with
+    | none => exact (firstLabel_none_iff _).mp hl
+    | some a => rw [hl] at this; simp at this
   · intro h i hi
     have hi' : i < g.nodes.size := by simpa using hi
     by_cases hc : ((g.get i).funcs.length > 1 && (g.get i).funcs.contains i) = true
     · simp only [hc, if_true]
       simp only [Bool.and_eq_true, decide_eq_true_eq] at hc
       rw [h i hi' hc.1 hc.2]
+      rfl
     · have hc' : ((g.get i).funcs.length > 1 && (g.get i).funcs.contains i) = false := by simpa using hc
       simp only [hc', Bool.false_eq_true, if_false]
 
